@@ -47,6 +47,7 @@ pub const RC_NOTIMP: u16 = 4;
 pub const RC_REFUSED: u16 = 5;
 pub const RC_NOTAUTH: u16 = 9;
 pub const RC_BADVERS: u16 = 16; // also BADSIG in the TSIG error field
+pub const RC_BADSIG: u16 = 16;
 pub const RC_BADKEY: u16 = 17;
 pub const RC_BADTIME: u16 = 18;
 
